@@ -183,11 +183,11 @@ Definition vote_margin (d : list (Z * Q * Q)) : Q :=
   qmin_list 1 (map (fun c => qabs (cell_tot d c 1 - cell_tot d c 0)) (zuniq (map (fun t => fst (fst t)) d))).
 
 (* CellMeanRegressor: weighted mean of the targets per distinct feature row (0 when the cell
-   has no weight) *)
+   has no weight); the fitted value is stored as a reduced fraction (same rational) *)
 Definition cell_mean (d : list (Z * Q * Q)) (c : Z) : Q :=
   let sel := filter (fun t => (fst (fst t) =? c)%Z) d in
   let sw := qsum (map snd sel) in
-  if Qltb 0 sw then qsum (map (fun t => snd t * snd (fst t)) sel) / sw else 0.
+  if Qltb 0 sw then Qred (qsum (map (fun t => snd t * snd (fst t)) sel) / sw) else 0.
 
 Definition mean_learn (d : list (Z * Q * Q)) : list (Z * Q) :=
   map (fun c => (c, cell_mean d c)) (zuniq (map (fun t => fst (fst t)) d)).
@@ -226,13 +226,11 @@ Definition gridsearch_cls (k : kind) (r cw : Q) (rows : list row) (xs : list Z) 
       Some (g, pts, select_pts cw pts)
   end.
 
-(* margin of the vote at one grid point (1 when a DummyClassifier is trained) *)
+(* margin of the vote at one grid point: 0 = some cell is tied (or has no weight at all), so that
+   rounding can change the trained predictor *)
 Definition margin_cls (k : kind) (r : Q) (rows : list row) (xs : list Z) (lam : list Q) : Q :=
   let w := grid_weights k r 1 1 rows lam in
-  match single_value (relabel w) with
-  | Some _ => 1
-  | None => vote_margin (combine (combine xs (relabel w)) (reweight w))
-  end.
+  vote_margin (combine (combine xs (relabel w)) (reweight w)).
 
 (* ---------- the same for BoundedGroupLoss (sorted group index on both sides) ---------- *)
 Definition gridsearch_loss (l : loss) (cw : Q) (rows : list lrow) (xs : list Z) (gs : nat) (limit : Q)
